@@ -205,4 +205,213 @@ theorem logprob_phred_roundtrip (E : ℝ → ℝ) (x : ℝ) :
   rw [(conversions_eq_model E x).2.2.2.2.2.2, (conversions_eq_model E _).2.2.2.2.1]
   exact ⟨_, rfl, by push_cast; ring⟩
 
+/-! ### `ln_sum_exp` -/
+
+theorem lt_emb (a b : LP) : XR.lt (emb a) (emb b) = decide (lin a < lin b) := by
+  cases a <;> cases b <;> simp [lin, exp_pos, (exp_pos _).le, not_lt.mpr]
+
+theorem lin_le_none {y : LP} (h : lin y ≤ lin none) : y = none := by
+  cases y with
+  | none => rfl
+  | some v => simp only [lin] at h; exact absurd h (not_le.mpr (exp_pos v))
+
+theorem for1_step (E : ℝ → ℝ) (a p : XR) (i k : Nat) :
+    ln_sum_exp_for1 (xrOps E) (a, i) (k, p) = if XR.lt a p then (p, k) else (a, i) := by
+  by_cases h : XR.lt a p = true <;> simp [ln_sum_exp_for1, h]
+
+/-- the maximum loop: afterwards `imax` points at an entry equal to `pmax`, and no entry is larger -/
+theorem for1_fold (E : ℝ → ℝ) (t : List LP) : ∀ (k : Nat) (pm : LP) (im : Nat) (pre : List LP), pre.length = k →
+    pre[im]? = some pm → (∀ y ∈ pre, lin y ≤ lin pm) →
+    ∃ (pm' : LP) (im' : Nat), List.foldl (ln_sum_exp_for1 (xrOps E)) (emb pm, im) (Rs.enumIdxFrom k (t.map emb)) = (emb pm', im') ∧
+      (pre ++ t)[im']? = some pm' ∧ ∀ y ∈ pre ++ t, lin y ≤ lin pm' := by
+  induction t with
+  | nil => intro k pm im pre _ h1 h2; exact ⟨pm, im, rfl, by simpa using h1, by simpa using h2⟩
+  | cons p t ih =>
+    intro k pm im pre hk h1 h2
+    simp only [List.map_cons, Rs.enumIdxFrom, List.foldl_cons, for1_step, lt_emb]
+    have hlen : (pre ++ [p]).length = k + 1 := by simp [hk]
+    by_cases hlt : lin pm < lin p
+    · simp only [hlt, decide_true, ↓reduceIte]
+      obtain ⟨pm', im', e1, e2, e3⟩ := ih (k + 1) p k (pre ++ [p]) hlen (by simp [← hk])
+        (by intro y hy; rcases List.mem_append.mp hy with hy | hy
+            · exact le_trans (h2 y hy) hlt.le
+            · simp only [List.mem_singleton] at hy; rw [hy])
+      exact ⟨pm', im', e1, by simpa using e2, by simpa using e3⟩
+    · simp only [hlt, decide_false, Bool.false_eq_true, ↓reduceIte]
+      have him : im < pre.length := by
+        by_contra hc; rw [List.getElem?_eq_none (not_lt.mp hc)] at h1; cases h1
+      obtain ⟨pm', im', e1, e2, e3⟩ := ih (k + 1) pm im (pre ++ [p]) hlen
+        (by rw [List.getElem?_append_left him]; exact h1)
+        (by intro y hy; rcases List.mem_append.mp hy with hy | hy
+            · exact h2 y hy
+            · simp only [List.mem_singleton] at hy; rw [hy]; exact not_lt.mp hlt)
+      exact ⟨pm', im', e1, by simpa using e2, by simpa using e3⟩
+
+theorem fmap1_step (E : ℝ → ℝ) (M : ℝ) (imax i : Nat) (q : LP) :
+    ln_sum_exp_fmap1 (xrOps E) (XR.fin M) imax (i, emb q) =
+      match q with
+      | none => none
+      | some y => if i = imax then none else some (XR.fin (E (y - M))) := by
+  cases q with
+  | none => simp [ln_sum_exp_fmap1, ln_zero]
+  | some y => by_cases h : i = imax <;> simp [ln_sum_exp_fmap1, ln_zero, h]
+
+@[simp] theorem fmap1_ninf (E : ℝ → ℝ) (M : ℝ) (imax i : Nat) :
+    ln_sum_exp_fmap1 (xrOps E) (XR.fin M) imax (i, XR.ninf) = none := fmap1_step E M imax i none
+
+@[simp] theorem fmap1_fin (E : ℝ → ℝ) (M y : ℝ) (imax i : Nat) :
+    ln_sum_exp_fmap1 (xrOps E) (XR.fin M) imax (i, XR.fin y) = if i = imax then none else some (XR.fin (E (y - M))) :=
+  fmap1_step E M imax i (some y)
+
+/-- the summation pass behind the position of the maximum: every finite entry contributes -/
+theorem fmap_nohole (E : ℝ → ℝ) (M : ℝ) (imax : Nat) (l : List LP) : ∀ k, imax < k →
+    List.filterMap (ln_sum_exp_fmap1 (xrOps E) (XR.fin M) imax) (Rs.enumIdxFrom k (l.map emb)) =
+      ((finites l).map fun y => E (y - M)).map XR.fin := by
+  induction l with
+  | nil => intro k _; rfl
+  | cons q l ih =>
+    intro k hk
+    have hne : k ≠ imax := by omega
+    cases q with
+    | none => simpa [Rs.enumIdxFrom, fmap1_step, finites] using ih (k + 1) (by omega)
+    | some y => simpa [Rs.enumIdxFrom, fmap1_step, finites, hne] using ih (k + 1) (by omega)
+
+/-- the summation pass: every finite entry except the one at `imax` contributes -/
+theorem fmap_hole (E : ℝ → ℝ) (M : ℝ) (l : List LP) : ∀ (k im : Nat), l[im]? = some (some M) →
+    ∃ rest : List ℝ, List.filterMap (ln_sum_exp_fmap1 (xrOps E) (XR.fin M) (k + im)) (Rs.enumIdxFrom k (l.map emb)) = rest.map XR.fin ∧
+      rest.sum + E (M - M) = ((finites l).map fun y => E (y - M)).sum ∧ ∀ v ∈ rest, ∃ y ∈ finites l, v = E (y - M) := by
+  induction l with
+  | nil => intro k im h; simp at h
+  | cons q l ih =>
+    intro k im h
+    cases im with
+    | zero =>
+      simp only [List.getElem?_cons_zero, Option.some.injEq] at h
+      subst h
+      refine ⟨(finites l).map fun y => E (y - M), ?_, ?_, ?_⟩
+      · simp only [List.map_cons, Rs.enumIdxFrom, Nat.add_zero, emb_some, List.filterMap_cons]
+        rw [show ln_sum_exp_fmap1 (xrOps E) (XR.fin M) k (k, XR.fin M) = none by
+          simpa using fmap1_step E M k k (some M)]
+        exact fmap_nohole E M k l (k + 1) (by omega)
+      · simp [finites, add_comm]
+      · intro v hv; obtain ⟨y, hy, rfl⟩ := List.mem_map.mp hv
+        exact ⟨y, by simp [finites] at hy ⊢; exact Or.inr hy, rfl⟩
+    | succ im =>
+      simp only [List.getElem?_cons_succ] at h
+      obtain ⟨rest, e1, e2, e3⟩ := ih (k + 1) im h
+      have hidx : k + (im + 1) = k + 1 + im := by omega
+      have hne : k ≠ k + 1 + im := by omega
+      cases q with
+      | none =>
+        refine ⟨rest, ?_, by simpa [finites] using e2, by simpa [finites] using e3⟩
+        simp only [List.map_cons, Rs.enumIdxFrom, List.filterMap_cons, hidx]
+        rw [show ln_sum_exp_fmap1 (xrOps E) (XR.fin M) (k + 1 + im) (k, emb none) = none by
+          simpa using fmap1_step E M (k + 1 + im) k none]
+        exact e1
+      | some y =>
+        refine ⟨E (y - M) :: rest, ?_, ?_, ?_⟩
+        · simp only [List.map_cons, Rs.enumIdxFrom, List.filterMap_cons, hidx]
+          rw [show ln_sum_exp_fmap1 (xrOps E) (XR.fin M) (k + 1 + im) (k, emb (some y)) = some (XR.fin (E (y - M))) by
+            simpa [hne] using fmap1_step E M (k + 1 + im) k (some y)]
+          simp only [e1]
+        · simp only [finites, List.filterMap_cons, id, List.map_cons, List.sum_cons] at e2 ⊢
+          linarith
+        · intro v hv
+          rcases List.mem_cons.mp hv with rfl | hv
+          · exact ⟨y, by simp [finites], rfl⟩
+          · obtain ⟨z, hz, rfl⟩ := e3 v hv
+            exact ⟨z, by simp [finites] at hz ⊢; exact Or.inr hz, rfl⟩
+
+theorem mem_finites {l : List LP} {y : ℝ} : y ∈ finites l ↔ some y ∈ l := by
+  simp [finites]
+
+/-- the translated `ln_sum_exp` is the model's `lnSumExp` (any position of a maximal entry may be the excluded one) -/
+theorem ln_sum_exp_eq_model (E : ℝ → ℝ) (hE : PosOn E) (l : List LP) :
+    ln_sum_exp (xrOps E) (l.map emb) = Res.ok (emb (lnSumExp E l)) := by
+  cases l with
+  | nil => simp [ln_sum_exp, ln_zero, lnSumExp, finites]
+  | cons a t =>
+    obtain ⟨pm, im, e1, e2, e3⟩ := for1_fold E t 1 a 0 [a] rfl rfl (by simp)
+    have hdrop : (Rs.enumIdx (emb a :: t.map emb)).drop 1 = Rs.enumIdxFrom 1 (t.map emb) := rfl
+    simp only [ln_sum_exp, ln_zero, List.map_cons, List.isEmpty_cons, Bool.false_eq_true, ↓reduceIte, Rs.idx,
+      List.getElem?_cons_zero, Res.ok_bind, hdrop, e1, ops_eq, ops_negInf, ops_inf, ops_add, ops_ln1p, Res.pure_eq_ok]
+    simp only [List.singleton_append] at e2 e3
+    cases pm with
+    | none =>
+      have hall : finites (a :: t) = [] := by
+        rw [List.eq_nil_iff_forall_not_mem]
+        intro y hy
+        have := lin_le_none (e3 _ (mem_finites.mp hy))
+        cases this
+      simp [lnSumExp, hall]
+    | some M =>
+      obtain ⟨rest, f1, f2, f3⟩ := fmap_hole E M (a :: t) 0 im e2
+      have hMmem : M ∈ finites (a :: t) := mem_finites.mpr (List.mem_of_getElem? e2)
+      have hle : ∀ y ∈ finites (a :: t), y ≤ M := fun y hy => exp_le_exp.mp (e3 _ (mem_finites.mp hy))
+      have hpos : ∀ v ∈ rest, 0 < v := by
+        intro v hv; obtain ⟨y, hy, rfl⟩ := f3 v hv
+        exact hE _ (by have := hle y hy; linarith)
+      have hsum0 : 0 ≤ rest.sum := List.sum_nonneg fun v hv => (hpos v hv).le
+      have henum : Rs.enumIdx (emb a :: t.map emb) = Rs.enumIdxFrom 0 ((a :: t).map emb) := rfl
+      rw [henum]
+      rw [Nat.zero_add] at f1
+      simp only [emb_some, eq_fin_ninf, eq_fin_pinf, Bool.false_eq_true, ↓reduceIte, f1, fsum_fin,
+        ln1p_fin (show (-1 : ℝ) < rest.sum by linarith), add_fin]
+      -- the model side
+      unfold lnSumExp
+      cases hf : finites (a :: t) with
+      | nil => rw [hf] at hMmem; cases hMmem
+      | cons x xs =>
+        rw [hf] at hMmem hle f2
+        have hM : lmax x xs = M :=
+          le_antisymm (hle _ (lmax_mem x xs)) (le_lmax x xs M hMmem)
+        simp only [hM]
+        have hperm := List.perm_cons_erase hMmem
+        have hs : ((x :: xs).map fun y => E (y - M)).sum
+            = E (M - M) + (((x :: xs).erase M).map fun y => E (y - M)).sum := by
+          rw [(hperm.map _).sum_eq]; simp
+        have : rest.sum = (((x :: xs).erase M).map fun y => E (y - M)).sum := by linarith
+        rw [this]
+        rfl
+
+theorem ln_sum_exp_error (E : ℝ → ℝ) (δ : ℝ) (h : ApproxExp E δ) (hδ : δ < 1) (l : List LP) :
+    ∃ r : LP, ln_sum_exp (xrOps E) (l.map emb) = Res.ok (emb r) ∧ |lin r - (l.map lin).sum| ≤ δ * (l.map lin).sum :=
+  ⟨_, ln_sum_exp_eq_model E (posOn_of_approx h hδ) l, lnSumExp_error h hδ l⟩
+
+/-! ### `scan_ln_add_exp`, `ln_cumsum_exp` -/
+
+theorem scan_step_near (E : ℝ → ℝ) (hE : PosOn E) (s p : LP) :
+    ∃ r : LP, scan_ln_add_exp (xrOps E) (emb s) (emb p) = (emb r, some (emb r)) ∧ AddNear E s p r := by
+  obtain ⟨r, hr, hn⟩ := ln_add_exp_near_model E hE s p
+  exact ⟨r, by simp [scan_ln_add_exp, hr], hn⟩
+
+theorem iterScan_near (E : ℝ → ℝ) (hE : PosOn E) : ∀ (ps : List LP) (s : LP),
+    ∃ rs : List LP, Rs.iterScan (scan_ln_add_exp (xrOps E)) (emb s) (ps.map emb) = rs.map emb ∧ ScanNear E s ps rs
+  | [], _ => ⟨[], rfl, rfl⟩
+  | p :: ps, s => by
+    obtain ⟨r, hr, hn⟩ := scan_step_near E hE s p
+    obtain ⟨rs, hrs, hs⟩ := iterScan_near E hE ps r
+    exact ⟨r :: rs, by simp [Rs.iterScan, hr, hrs], r, rs, rfl, hn, hs⟩
+
+/-- the translated `ln_cumsum_exp`, consumed to its end, is a scan whose every step is an admissible addition of the
+translated `ln_add_exp`; one output per input -/
+theorem ln_cumsum_exp_eq_scan (E : ℝ → ℝ) (hE : PosOn E) (l : List LP) :
+    ∃ rs : List LP, ln_cumsum_exp (xrOps E) (l.map emb) = rs.map emb ∧ ScanNear E none l rs ∧ rs.length = l.length := by
+  obtain ⟨rs, h1, h2⟩ := iterScan_near E hE l none
+  exact ⟨rs, by simpa [ln_cumsum_exp, ln_zero] using h1, h2, h2.length⟩
+
+/-- every entry `k` of the translated cumulative sum is within `(δ + 2(k+1)·dropTol) ·` prefix sum of the prefix sum
+(`dropTol = 10⁻¹⁵` only pays for early exits of `ln_add_exp`; the pinned text has none, see `GenSrcProbsModel`) -/
+theorem ln_cumsum_exp_error (E : ℝ → ℝ) (δ : ℝ) (h : ApproxExp E δ) (hδ : δ < 1) (l rs : List LP)
+    (hrs : ln_cumsum_exp (xrOps E) (l.map emb) = rs.map emb) (k : ℕ) (r : LP) (hr : rs[k]? = some r)
+    (hk : δ + 2 * (k + 1 : ℕ) * dropTol ≤ 1) :
+    |lin r - ((l.take (k + 1)).map lin).sum| ≤ (δ + 2 * (k + 1 : ℕ) * dropTol) * ((l.take (k + 1)).map lin).sum := by
+  obtain ⟨rs', h1, h2, _⟩ := ln_cumsum_exp_eq_scan E (posOn_of_approx h hδ) l
+  have : rs = rs' := by
+    rw [h1] at hrs
+    exact (List.map_injective_iff.mpr (fun a b hab => emb_inj hab) hrs).symm
+  subst this
+  have := ScanNear.error h hδ l none rs 0 0 le_rfl (by simp [lin]) h2 k r hr (by simpa using hk)
+  simpa using this
+
 end RbV.Thm.GenSrcProbs
